@@ -59,7 +59,8 @@ Inductive ev :=
 | EUnpause (restored : option (list (nat * Z)))            (* Unpause._run: the captured state it applied, if any *)
 | EClock (s : sysst) (dt : Z) (before after : list Z)      (* update_calculated_tags: System State, increment, the four clocks before and after *)
 | EOut (user : bool) (i : nat) (v : Z)                      (* an output tag is assigned: by the user / a user-issued command, or by a method-issued command *)
-| EError.                                                  (* set_error_state *)
+| EError                                                   (* set_error_state *)
+| ECrash.                                                  (* an exception escaped Engine.tick (never emitted by the model) *)
 
 Record E := {
   started : bool; paused : bool; holding : bool; stopping : bool;
